@@ -4,6 +4,19 @@ from . import sym
 from .sym import PList, PDict, PObj, PSlice, PIter, EnumVal, Rope, is_z3, Unsupported
 
 
+class NativeMatch:
+    """stand-in for an re match object in native replays"""
+
+    def __init__(self, s, e):
+        self._s, self._e = s, e
+
+    def start(self, group=0):
+        return self._s
+
+    def end(self, group=0):
+        return self._e
+
+
 class Concretizer:
     def __init__(self, program, model, texts=()):
         self.p = program
@@ -123,6 +136,10 @@ class Concretizer:
                 self.memo[id(v)] = out
                 return out
             from . import abstract as _ab
+            if v.cls == '__match__':
+                obj = NativeMatch(self.val(v.attrs['_start']), self.val(v.attrs['_end']))
+                self.memo[id(v)] = obj
+                return obj
             if v.cls == 'AnsiString' and isinstance(v.attrs.get('_fmts'), _ab.AbsTbl):
                 obj = self.abstract_ansistring(v)
                 self.memo[id(v)] = obj
